@@ -51,9 +51,48 @@ struct Run {
 		}
 	}
 	// operands aimed at the rounding of the discarded rbits: products at exactly ±1/2 ulp and next to it
+	// quotients next to a rounding tie with a LONG divisor: a * 2^rbits = q * B + r with r just below / exactly at / just above B / 2,
+	// B up to nbits - 2 bits (so more than 64 bits in the wide configurations: the discarded fraction then differs from 1/2 by
+	// less than 2^-64). Built in 128-bit arithmetic, hence only for nbits + rbits <= 126.
+	static Big big128(unsigned __int128 x) { Big r; r.v[0] = (uint64_t)x; r.v[1] = (uint64_t)(x >> 64); return r; }
+	static void near_tie_div(uv::Rng& g) {
+		if constexpr (nbits >= 12 && rbits >= 1 && rbits <= 62 && nbits + rbits <= 126 && rbits + 4 <= nbits) {
+			typedef unsigned __int128 u128;
+			const unsigned total = nbits - 2 + rbits;                        // bits available for N = |a| * 2^rbits
+			unsigned bB = g.below(3) ? nbits - 2 - (unsigned)g.below(4) : 2 + (unsigned)g.below(nbits - 3);   // mostly the longest divisors
+			if (bB < 2) bB = 2;
+			if (bB > nbits - 2) bB = nbits - 2;
+			const unsigned bq = total - bB;                                  // bits available for the quotient
+			u128 B, r, q;
+			const int kind = (int)g.below(3);
+			if (kind == 2 && bB >= rbits + 3) {                              // exact tie: B = 2^(rbits+1) * odd, r = B / 2
+				const unsigned ob = bB - (rbits + 1);
+				u128 odd = ((((u128)g.next() << 64) | g.next()) & ((((u128)1) << ob) - 1)) | 1 | (((u128)1) << (ob - 1));
+				B = odd << (rbits + 1); r = B >> 1;
+				q = (((u128)g.next() << 64) | g.next()) & ((((u128)1) << (bq > 1 ? bq - 1 : 1)) - 1);
+			}
+			else {                                                           // odd divisor: r = (B-1)/2 (below the tie) or (B+1)/2 (above)
+				B = ((((u128)g.next() << 64) | g.next()) & ((((u128)1) << bB) - 1)) | 1 | (((u128)1) << (bB - 1));
+				r = (B >> 1) + (kind == 1 ? 1 : 0);
+				uint64_t b0 = (uint64_t)B, inv = b0;                         // inverse of B modulo 2^64 (Newton)
+				for (int it = 0; it < 6; ++it) inv *= 2 - b0 * inv;
+				const uint64_t M = (rbits == 64) ? ~0ull : ((1ull << rbits) - 1);
+				uint64_t q0 = ((0 - (uint64_t)r) * inv) & M;                 // q0 * B + r == 0 (mod 2^rbits)
+				if (bq <= rbits) { if (bq < 64 && (q0 >> bq)) return; q = q0; }
+				else q = q0 + ((((u128)g.next() << 64 | g.next()) & ((((u128)1) << (bq - rbits)) - 1)) << rbits);
+			}
+			u128 N = q * B + r;
+			if ((N & ((((u128)1) << rbits) - 1)) != 0) return;              // (cannot happen)
+			Big a = big128(N >> rbits), b = big128(B);
+			if (g.coin()) a = a.negated(nbits);
+			if (g.coin()) b = b.negated(nbits);
+			if (g_div) b2(DIV, a, b);
+		}
+	}
 	static void random(uint64_t count) {
 		uv::Rng g(uv::seed_from_env() * 1000003ull + nbits * 131ull + rbits * 7ull + sizeof(bt) + (arith ? 0 : 3));
 		for (uint64_t i = 0; i < count; ++i) {
+			if ((i & 3) == 1) near_tie_div(g);
 			Big a = uv::operand(g, nbits), b;
 			switch (g.below(6)) {
 			case 0: case 1: case 2: b = uv::partner(g, a, nbits); break;
@@ -95,7 +134,7 @@ struct Run {
 #define ROW7(X,BT) X(7,0,BT) X(7,1,BT) X(7,2,BT) X(7,3,BT) X(7,4,BT) X(7,5,BT) X(7,6,BT) X(7,7,BT)
 #define ROW8(X,BT) X(8,0,BT) X(8,1,BT) X(8,2,BT) X(8,3,BT) X(8,4,BT) X(8,5,BT) X(8,6,BT) X(8,7,BT) X(8,8,BT)
 #define ROW9(X,BT) X(9,0,BT) X(9,4,BT) X(9,9,BT)
-#define LARGE(X,BT) X(12,4,BT) X(16,8,BT) X(17,8,BT) X(24,12,BT) X(32,16,BT) X(33,16,BT) X(40,20,BT) X(64,32,BT)
+#define LARGE(X,BT) X(12,4,BT) X(16,8,BT) X(17,8,BT) X(24,12,BT) X(32,16,BT) X(33,16,BT) X(40,20,BT) X(64,32,BT) X(72,8,BT) X(80,8,BT) X(80,40,BT) X(96,24,BT) X(128,64,BT)
 #define ALLCFG(X,BT) ROW2(X,BT) ROW3(X,BT) ROW4(X,BT) ROW5(X,BT) ROW6(X,BT) ROW7(X,BT) ROW8(X,BT) ROW9(X,BT) LARGE(X,BT)
 
 int main(int argc, char** argv) {
